@@ -58,7 +58,18 @@ func errClass(err error) string {
 	if len(s) > 60 {
 		s = s[:60]
 	}
-	return s
+	// Numbers out: one class per message shape.
+	out := make([]byte, 0, len(s))
+	for i := 0; i < len(s); i++ {
+		if s[i] >= '0' && s[i] <= '9' {
+			if len(out) == 0 || out[len(out)-1] != 'N' {
+				out = append(out, 'N')
+			}
+			continue
+		}
+		out = append(out, s[i])
+	}
+	return string(out)
 }
 
 // panicSite extracts the function in which the panic was raised (the frame
